@@ -37,6 +37,9 @@ CLAIMS = {
  "C15": ("Map-iteration orders are permutations in the model; theorems: any output produced by sorting with a strict total order is independent of the iteration order (generic), instantiated for the UNBALANCED message (commodities sorted), workspace symbols (URI order) and completion ranking (score, count, label); the pre-fix comparator is refuted. Three nondeterminism defects found by the check were repaired (fix commits). Every run repeats every response of generated multi-file workspaces on 24 fresh servers and 2 fresh processes and requires a single answer class.",
          "Trusted: Coq kernel+VM; repetition is search, not proof, for the Go code (map order cannot be controlled); theorems cover the sorting steps only.",
          "Coq order-independence proofs + repetition oracle (in-process and fresh processes)", "5 C15"),
+ "C16": ("completion.go is transcribed (context, candidate narrowing, query, fuzzy score on runes, prefix filter, ranking, truncation, edit start) and equals the implementation on every generated request (labels in order on two maxResults values, edit start). Theorems for every candidate list, count table, fragment, mode and limit: soundness (only existing names that match: prefix / case-insensitive subsequence), prefix completeness before truncation and whenever the limit allows, bound, monotonicity in the limit, and non-increasing usage counts with nothing typed. Candidate narrowing and the edit range are refuted (known findings prefix_key_after_blank, edit_start_after_cursor, payee_edit_covers_date). The oracle checks all six clauses on the implementation's answers with usage counts recomputed by the harness.",
+         "Trusted: Coq kernel+VM; transcription (tied per request); analyzer name lists / counts are inputs; unicode.ToLower table generated from the toolchain; date items excluded.",
+         "Coq proofs on the transcribed filtering/ranking core + per-request correspondence + six-clause oracle", "5 C16"),
  "C17": ("Semantic-token transport modelled (uint32 delta encoding, range filter, edit computation, process-global result cache); C17_delta proved for every tokenizer and every history with deltas quoting current, stale, foreign or unknown ids; C17_range/decode-encode proved for all position-sorted token lists. Every run replays request histories on up to 3 documents against the implementation, reconstructs the client's array from its answers and checks token geometry (order, overlap, inside line, legend, non-zero length) with line lengths in UTF-16 units.",
          "Trusted: Coq kernel+VM; the tokenizer is a parameter at this level (lexeme-exact coverage of each token kind is not yet modelled: geometry is checked on the implementation's output only); known finding nonascii_columns_and_lengths; zero-length tokens were repaired.",
          "Coq invariant proof over all request histories + client-reconstruction oracle on the implementation", "5 C17"),
